@@ -126,6 +126,36 @@ def handler_names(h):
     return [U(t) for t in ts]
 
 
+def _replace_node(root, target, repl):
+    """copy of `root` in which the node `target` (by identity) is replaced by `repl`; other nodes are shared"""
+    if root is target:
+        return repl
+    if not isinstance(root, ast.AST):
+        return root
+    changed = False
+    fields = {}
+    for name, val in ast.iter_fields(root):
+        if isinstance(val, list):
+            nv = [_replace_node(x, target, repl) for x in val]
+            if any(a is not b for a, b in zip(nv, val)):
+                changed = True
+            fields[name] = nv
+        elif isinstance(val, ast.AST):
+            nv = _replace_node(val, target, repl)
+            if nv is not val:
+                changed = True
+            fields[name] = nv
+        else:
+            fields[name] = val
+    if not changed:
+        return root
+    new = type(root)(**fields)
+    ast.copy_location(new, root)
+    if hasattr(root, '_parent'):
+        new._parent = root._parent
+    return new
+
+
 class PathEnum:
     def __init__(self, idx, resolver=None, may_raise=None, max_paths=200000, max_depth=3, hier=None):
         self.idx = idx
@@ -405,6 +435,22 @@ class PathEnum:
             inl = self._inline(value, p, fr)
             if inl is not None:
                 return inl
+            # a call nested deeper inside the arguments (f(g(h(x)))): hoist the innermost inlinable one into a temporary
+            deep = self._deep_inlinable(value, p, fr)
+            if deep is not None and fr.depth < self.max_depth:
+                outs = []
+                for q, ret, rfr in self._inline(deep, p, fr):
+                    if q.exit is not None:
+                        outs.append((q, _UNKNOWN, fr))
+                        continue
+                    tmp = '__arg%d_d' % len(q.ev)
+                    tn = ast.Name(id=tmp, ctx=ast.Store())
+                    asg = ast.Assign(targets=[tn], value=deep)
+                    ast.copy_location(asg, value)
+                    q.ev.append(Ev('assign', asg, fr, tn, (ret, rfr)))
+                    v2 = _replace_node(value, deep, ast.Name(id=tmp, ctx=ast.Load()))
+                    outs += self.value_paths(v2, q, fr)
+                return outs
             # an argument that is itself an inlinable call: evaluate it first into a temporary
             for ai, a in enumerate(value.args):
                 if isinstance(a, ast.Call) and self.resolver(a, fr, p) is not None and fr.depth < self.max_depth:
@@ -426,6 +472,20 @@ class PathEnum:
         q = p.fork()
         excs = self._note_calls(value, q, fr)
         return [(q, value, fr)] + [(x, _UNKNOWN, fr) for x in excs]
+
+    def _deep_inlinable(self, value, p, fr):
+        """the first (evaluation order) inlinable call nested at depth >= 2 inside the arguments of `value`"""
+        def rec(n, depth):
+            if isinstance(n, (ast.Lambda, ast.ListComp, ast.GeneratorExp, ast.SetComp, ast.DictComp, ast.IfExp, ast.BoolOp)):
+                return None
+            for ch in ast.iter_child_nodes(n):
+                r = rec(ch, depth + (1 if isinstance(n, ast.Call) else 0))
+                if r is not None:
+                    return r
+            if isinstance(n, ast.Call) and depth >= 2 and self.resolver(n, fr, p) is not None:
+                return n
+            return None
+        return rec(value, 0)
 
     # ----------------------------------------------------------- statements
     def block(self, stmts, p, fr):
